@@ -943,6 +943,18 @@ func (e *SpecEnv) evalCall(n *ECall) SVal {
 		v := arg(0)
 		c := e.asInt(arg(1), tyByte)
 		return SVal{V: e.x.indexByte(e.x.seqView(e.st(), v.V), c, name == "lastIndexByte"), T: typInt}
+	case "trailRun":
+		// trailRun(seq, c1, c2, ...): number of trailing bytes of seq that are one of the given characters
+		v := arg(0)
+		var set [128]bool
+		for i := 1; i < len(n.Args); i++ {
+			c := arg(i)
+			if c.C == nil || !c.C.IsInt64() || c.C.Int64() < 0 || c.C.Int64() > 127 {
+				sfail("trailRun: characters must be ASCII constants")
+			}
+			set[c.C.Int64()] = true
+		}
+		return SVal{V: e.x.trailRun(e.x.seqView(e.st(), v.V), set), T: typInt}
 	case "leadRun":
 		// leadRun(seq, c1, c2, ...): number of leading bytes of seq that are one of the given characters
 		v := arg(0)
